@@ -114,6 +114,12 @@ fn raw_out(s: &str) {
 
 fn install_hook() {
     std::panic::set_hook(Box::new(|info| {
+        array_engine::LAST_PANIC_FILE.with(|f| {
+            if let Ok(mut f) = f.try_borrow_mut() {
+                f.clear();
+                f.push_str(info.location().map(|l| l.file()).unwrap_or(""));
+            }
+        });
         // Panics are part of normal operation (rejected calls, injected faults) and are silent,
         // except in journal mode, where the last message before the process died is the diagnosis.
         if VERBOSE.load(std::sync::atomic::Ordering::Relaxed) || array_engine::IN_GUARDED.with(|g| g.get()) == 0 {
